@@ -845,10 +845,10 @@ def search(run, rng, quick):
     t0 = time.time()
     budget = 45.0 if quick else 520.0
     t_end = t0 + budget
-    n_rep = 1500 if quick else 12000
-    n_chain = 500 if quick else 6000
-    n_mpo = 40 if quick else 400
-    n_tree = 250 if quick else 3000
+    n_rep = 2000 if quick else 30000
+    n_chain = 900 if quick else 18000
+    n_mpo = 60 if quick else 900
+    n_tree = 450 if quick else 9000
     directed_d10(run)
     e1, d1 = part_replay(run, rng, n_rep)
     e2, d2 = part_chain(run, rng, n_chain, quick, t0 + budget * 0.6)
